@@ -1,7 +1,7 @@
 //! One shuttle execution of a workload against the real SampleStreamSource / SampleStreamTrack,
 //! the per-execution log, and the C20 oracles evaluated on that log.
-use crate::workload::{Op, SourceMode, Workload};
-use bytes::Bytes;
+use crate::payload::{self, Ctx, Table};
+use crate::workload::{Consumer, Op, SourceMode, Workload};
 use rustrtc::media::frame::{AudioFrame, MediaKind, MediaSample};
 use rustrtc::media::track::{sample_track, MediaStreamTrack, SampleStreamSource, SampleStreamTrack};
 use rustrtc::media::MediaError;
@@ -49,6 +49,10 @@ pub fn sched_point() {
     }
 }
 
+pub fn in_exec() -> bool {
+    IN_EXEC.with(|c| c.get())
+}
+
 pub fn leave_exec() {
     IN_EXEC.with(|c| c.set(false));
 }
@@ -62,11 +66,22 @@ pub fn set_yield_every(n: u32) {
 // ---------------------------------------------------------------------------------------------
 static PAYLOADS: [&[u8]; 5] = [b"a", b"payload-bb", b"\x00\x01\x02\x03\x04\x05\x06\x07", b"", b"zzzzzzzzzzzzzzzzzzzzzzzzzzzzzzzz"];
 
-pub fn make_sample(p: u32, i: u32) -> MediaSample {
+fn payload_bytes(p: u32, i: u32) -> &'static [u8] {
+    PAYLOADS[((p * 7 + i) % PAYLOADS.len() as u32) as usize]
+}
+fn clock_rate(p: u32, i: u32) -> u32 {
+    8000 + (p * 97 + i * 13) % 1000
+}
+
+/// The i-th sample of producer p. Its payload is a `Bytes` over an owner that reports its own
+/// release to `tbl` (payload.rs); the bytes themselves are static, so comparing or reading them
+/// never depends on the owner being alive. This is the only place a payload is created, and
+/// nothing in the harness keeps a clone of it.
+pub fn make_sample(tbl: &Arc<Table>, p: u32, i: u32) -> MediaSample {
     MediaSample::Audio(AudioFrame {
         rtp_timestamp: (p << 16) | i,
-        clock_rate: 8000 + (p * 97 + i * 13) % 1000,
-        data: Bytes::from_static(PAYLOADS[((p * 7 + i) % PAYLOADS.len() as u32) as usize]),
+        clock_rate: clock_rate(p, i),
+        data: payload::tracked_bytes(tbl, p, i, payload_bytes(p, i)),
         sequence_number: Some(i as u16),
         payload_type: Some(96 + p as u8),
         marker: i % 2 == 1,
@@ -78,13 +93,12 @@ pub fn make_sample(p: u32, i: u32) -> MediaSample {
 
 /// bit-for-bit comparison of every field against what producer p pushed as its i-th sample
 fn same_as_pushed(f: &AudioFrame, p: u32, i: u32) -> bool {
-    let MediaSample::Audio(e) = make_sample(p, i) else { unreachable!() };
-    f.rtp_timestamp == e.rtp_timestamp
-        && f.clock_rate == e.clock_rate
-        && f.data == e.data
-        && f.sequence_number == e.sequence_number
-        && f.payload_type == e.payload_type
-        && f.marker == e.marker
+    f.rtp_timestamp == (p << 16) | i
+        && f.clock_rate == clock_rate(p, i)
+        && f.data[..] == *payload_bytes(p, i)
+        && f.sequence_number == Some(i as u16)
+        && f.payload_type == Some(96 + p as u8)
+        && f.marker == (i % 2 == 1)
         && f.header_extension.is_none()
         && f.source_addr.is_none()
         && f.raw_packet.is_none()
@@ -97,13 +111,39 @@ fn same_as_pushed(f: &AudioFrame, p: u32, i: u32) -> bool {
 pub enum ConsumerEnd {
     Running,
     Eos,
+    /// let go of the track on purpose (abandon_after / stop_then_abandon) before end-of-stream
+    Abandoned,
     CapExceeded,
     OtherError(String),
 }
 
-#[derive(Debug)]
+/// the moment the last handle (source or track) of the queue is dropped
+#[derive(Clone, Debug)]
+pub struct Teardown {
+    /// payloads created and not yet released = samples still in the ring (every thread but the
+    /// one dropping has finished: whatever was received or refused has been released by now)
+    pub fill: usize,
+    /// samples popped from the ring so far = the ring's head index
+    pub head: usize,
+    pub by: String,
+    pub handle: &'static str,
+}
+
 pub struct Log {
     pub np: usize,
+    pub capacity: usize,
+    pub consumer_mode: Consumer,
+    pub table: Arc<Table>,
+    /// handles that keep the ring alive: source handles plus every Arc of the track
+    pub holders_alive: usize,
+    pub holders_total: usize,
+    pub holders_dropped: usize,
+    pub producers_done: usize,
+    pub teardown: Option<Teardown>,
+    /// samples recv() delivered although their payload had been released before
+    pub released_while_queued: Vec<u32>,
+    pub stalled: u32,
+    pub released_at_teardown: u32,
     /// samples handed to a push call, per producer (index = next sample number)
     pub started: Vec<u32>,
     /// sample numbers the API accepted (send/send_many Ok, try_send Ok), per producer
@@ -138,9 +178,20 @@ pub struct Log {
 }
 
 impl Log {
-    fn new(w: &Workload, handles: usize) -> Log {
+    fn new(w: &Workload, handles: usize, holders: usize, table: Arc<Table>) -> Log {
         Log {
             np: w.producers.len(),
+            capacity: w.capacity,
+            consumer_mode: w.consumer,
+            table,
+            holders_alive: holders,
+            holders_total: holders,
+            holders_dropped: 0,
+            producers_done: 0,
+            teardown: None,
+            released_while_queued: vec![],
+            stalled: 0,
+            released_at_teardown: 0,
             started: vec![0; w.producers.len()],
             accepted: vec![vec![]; w.producers.len()],
             would_block: 0,
@@ -183,6 +234,12 @@ impl Log {
             "parked": self.parked,
             "parked_before_close": self.parked_before_close,
             "trace": self.trace,
+            "consumer": self.consumer_mode.label(),
+            "capacity": self.capacity,
+            "handles_of_the_ring_alive": self.holders_total - self.holders_dropped,
+            "released_by_ring_drop": self.released_at_teardown,
+            "teardown": self.teardown.as_ref().map(|t| serde_json::json!({ "queued_when_last_handle_dropped": t.fill, "ring_head": t.head, "last_handle": t.handle, "dropped_by": t.by })),
+            "release": release_summary(&self.table),
         })
     }
     /// hash of everything observable about the run (exactness check for replays)
@@ -198,6 +255,17 @@ impl Log {
     }
 }
 
+/// per payload: how often released, by which paths; plus what the quarantine scan shows
+fn release_summary(tbl: &Table) -> serde_json::Value {
+    let q = payload::peek_quarantine();
+    tbl.try_with(|t| {
+        let over: Vec<String> = q.iter().filter(|(_, w)| *w != 0).filter_map(|(a, w)| t.blocks.iter().rev().find(|b| b.0 == *a).map(|b| format!("p{}#{} dropped {} more time(s) after its release", b.1, b.2, 0usize.wrapping_sub(*w)))).collect();
+        let never: Vec<String> = t.created.iter().enumerate().flat_map(|(p, c)| c.iter().enumerate().filter(|(i, c)| **c && t.released[p][*i] == 0).map(move |(i, _)| format!("p{p}#{i}")).collect::<Vec<_>>()).collect();
+        serde_json::json!({ "releases_in_order": t.order_text(), "not_released_so_far": never, "dropped_again_after_release": over })
+    })
+    .unwrap_or(serde_json::json!("table busy"))
+}
+
 #[derive(Default, Debug, Clone)]
 pub struct Stats {
     pub executions_completed: u64,
@@ -206,6 +274,12 @@ pub struct Stats {
     pub samples_received: u64,
     pub samples_lost_to_overflow: u64,
     pub probes: BTreeMap<&'static str, u64>,
+    pub payloads_created: u64,
+    /// payloads released, by path (index = payload::Path)
+    pub released_by: [u64; 6],
+    /// executions by what the ring held when its last handle was dropped: [empty, partly filled, exactly full]
+    pub teardown: [u64; 3],
+    pub teardown_full_by_capacity: BTreeMap<usize, u64>,
 }
 impl Stats {
     fn hit(&mut self, k: &'static str, n: u32) {
@@ -253,6 +327,45 @@ impl Handle {
     }
 }
 
+/// Drops one of the handles that keep the ring alive (a source handle or an Arc of the track).
+/// If it is the last one, what the ring still holds is noted first: `SpscRing::drop` runs inside
+/// this drop, and every payload it lets go of is attributed to the teardown.
+fn drop_holder<T>(x: T, log: &SharedLog, who: &str, handle: &'static str) {
+    let tbl = with(log, |l| l.table.clone());
+    // Dropping a source handle takes several steps (sender count, closed flag, then the Arc of
+    // the ring), so two drops can overlap. The thread that BEGINS its drop last notes the fill
+    // level: every other thread has finished its pushes and receives by then, nothing but the
+    // teardown can change it any more. The thread that COMPLETES its drop last is the one whose
+    // drop ran SpscRing::drop.
+    let begins_last = with(log, |l| {
+        l.holders_alive -= 1;
+        l.holders_alive == 0
+    });
+    if begins_last {
+        let fill = tbl.outstanding();
+        let head = tbl.with(|t| (t.by_path[payload::Path::Consumer as usize] + t.by_path[payload::Path::QueueOverflowOldest as usize]) as usize);
+        with(log, |l| {
+            l.teardown = Some(Teardown { fill, head, by: String::new(), handle: "" });
+            l.trace.push(format!("last handle about to go ({handle} held by {who}) with {fill} queued"));
+        });
+    }
+    let before = tbl.with(|t| t.by_path[payload::Path::RingDrop as usize]);
+    payload::set_ctx(&tbl, Ctx::HandleDrop);
+    drop(x);
+    payload::set_ctx(&tbl, Ctx::Idle);
+    let after = tbl.with(|t| t.by_path[payload::Path::RingDrop as usize]);
+    with(log, |l| {
+        l.holders_dropped += 1;
+        l.released_at_teardown += after - before;
+        if l.holders_dropped == l.holders_total {
+            if let Some(t) = l.teardown.as_mut() {
+                t.by = who.to_string();
+                t.handle = handle;
+            }
+        }
+    });
+}
+
 fn note_push_start(log: &SharedLog, p: usize, n: u32, cap: usize, drop_oldest: bool) -> u32 {
     with(log, |l| {
         let first = l.started[p];
@@ -273,14 +386,17 @@ fn note_push_start(log: &SharedLog, p: usize, n: u32, cap: usize, drop_oldest: b
     })
 }
 
-fn producer(p: usize, ops: Vec<Op>, h: Handle, track: Arc<SampleStreamTrack>, log: SharedLog, cap: usize) {
+fn producer(p: usize, ops: Vec<Op>, h: Handle, track: Option<Arc<SampleStreamTrack>>, log: SharedLog, cap: usize) {
+    let tbl = with(&log, |l| l.table.clone());
     for op in ops {
         match op {
             Op::Send | Op::TrySend => {
                 let drop_oldest = op == Op::Send;
                 let i = note_push_start(&log, p, 1, cap, drop_oldest);
-                let s = make_sample(p as u32, i);
+                let s = make_sample(&tbl, p as u32, i);
+                payload::set_ctx(&tbl, Ctx::Push { p: p as u16, first: i, n: 1, refusing: !drop_oldest });
                 let r = if drop_oldest { h.src().send(s) } else { h.src().try_send(s) };
+                payload::set_ctx(&tbl, Ctx::Idle);
                 with(&log, |l| {
                     l.in_send[p] = false;
                     match r {
@@ -292,7 +408,10 @@ fn producer(p: usize, ops: Vec<Op>, h: Handle, track: Arc<SampleStreamTrack>, lo
             }
             Op::SendMany(n) => {
                 let first = note_push_start(&log, p, n as u32, cap, true);
-                let r = h.src().send_many((0..n as u32).map(|k| make_sample(p as u32, first + k)));
+                payload::set_ctx(&tbl, Ctx::Push { p: p as u16, first, n: n as u32, refusing: false });
+                // the iterator is lazy: sample k is created when send_many is about to push it
+                let r = h.src().send_many((0..n as u32).map(|k| make_sample(&tbl, p as u32, first + k)));
+                payload::set_ctx(&tbl, Ctx::Idle);
                 with(&log, |l| {
                     l.in_send[p] = false;
                     match r {
@@ -301,7 +420,11 @@ fn producer(p: usize, ops: Vec<Op>, h: Handle, track: Arc<SampleStreamTrack>, lo
                     }
                 });
             }
-            Op::Stop => do_stop(&track, &log, &format!("p{p}")),
+            Op::Stop => {
+                if let Some(t) = &track {
+                    do_stop(t, &log, &format!("p{p}"))
+                }
+            }
             Op::CloneDrop => drop(h.src().clone()),
         }
     }
@@ -312,14 +435,18 @@ fn producer(p: usize, ops: Vec<Op>, h: Handle, track: Arc<SampleStreamTrack>, lo
         }
         last
     });
-    drop(h);
+    drop_holder(h, &log, &format!("p{p}"), "source");
     with(&log, |l| {
         l.handles_alive -= 1;
+        l.producers_done += 1;
         if last {
             l.closed = true;
             l.trace.push(format!("closed by p{p}"));
         }
     });
+    if let Some(t) = track {
+        drop_holder(t, &log, &format!("p{p}"), "track");
+    }
 }
 
 fn do_stop(track: &SampleStreamTrack, log: &SharedLog, who: &str) {
@@ -354,45 +481,113 @@ impl Future for Watch<'_> {
     }
 }
 
-fn consumer(track: Arc<SampleStreamTrack>, log: SharedLog, cap: usize, pushes: Vec<u32>) {
+/// recv() until the stream ends (true) or `limit` samples have been received in this call (false)
+fn recv_loop(track: &SampleStreamTrack, log: &SharedLog, tbl: &Arc<Table>, cap: usize, pushes: &[u32], limit: Option<u32>) -> bool {
+    let mut got = 0u32;
     loop {
-        if with(&log, |l| l.received.len()) >= cap {
-            with(&log, |l| l.end = ConsumerEnd::CapExceeded);
-            return;
+        if limit.map(|k| got >= k).unwrap_or(false) {
+            return false;
         }
-        let r = shuttle::future::block_on(Watch { inner: track.recv(), log: &log });
+        if with(log, |l| l.received.len()) >= cap {
+            with(log, |l| l.end = ConsumerEnd::CapExceeded);
+            return true;
+        }
+        let r = shuttle::future::block_on(Watch { inner: track.recv(), log });
         match r {
             Ok(MediaSample::Audio(f)) => {
+                got += 1;
                 let (p, i) = (f.rtp_timestamp >> 16, f.rtp_timestamp & 0xffff);
                 let ok = (p as usize) < pushes.len() && i < pushes[p as usize] && same_as_pushed(&f, p, i);
-                with(&log, |l| {
+                // a payload released while its sample was still on its way to the consumer: the
+                // consumer now holds a `Bytes` whose owner is gone
+                let stale = ok && tbl.release_count(p, i) > 0;
+                let dup = with(log, |l| {
+                    let dup = l.received.iter().any(|(ts, _)| *ts == f.rtp_timestamp);
                     l.received.push((f.rtp_timestamp, ok));
+                    if stale {
+                        l.released_while_queued.push(f.rtp_timestamp);
+                    }
                     if l.closed {
                         l.received_after_close += 1;
                     } else {
                         l.received_while_producer_alive += 1;
                     }
+                    dup
                 });
+                if !ok || stale || dup {
+                    // a corrupt sample, a second copy of a delivered sample or a sample whose
+                    // payload is already gone: dropping it would be a memory error committed by
+                    // the harness; the log has what the oracles need
+                    std::mem::forget(f);
+                } else {
+                    payload::set_ctx(tbl, Ctx::ConsumerDrop);
+                    drop(f);
+                    payload::set_ctx(tbl, Ctx::Idle);
+                }
             }
-            Ok(MediaSample::Video(_)) => {
-                with(&log, |l| l.received.push((u32::MAX, false)));
+            Ok(MediaSample::Video(v)) => {
+                std::mem::forget(v);
+                with(log, |l| l.received.push((u32::MAX, false)));
             }
             Err(MediaError::EndOfStream) => {
                 // drop_count() goes through a wrapped atomic (a scheduling point): never call it
                 // with the log guard held
                 let dc = track.drop_count();
-                with(&log, |l| {
+                with(log, |l| {
                     l.end = ConsumerEnd::Eos;
                     l.drop_count_at_end = dc;
                 });
-                return;
+                return true;
             }
             Err(e) => {
-                with(&log, |l| l.end = ConsumerEnd::OtherError(format!("{e:?}")));
-                return;
+                with(log, |l| l.end = ConsumerEnd::OtherError(format!("{e:?}")));
+                return true;
             }
         }
     }
+}
+
+fn consumer(track: Arc<SampleStreamTrack>, log: SharedLog, cap: usize, pushes: Vec<u32>, mode: Consumer, np: usize) {
+    let tbl = with(&log, |l| l.table.clone());
+    let abandon = |log: &SharedLog| {
+        let dc = track.drop_count();
+        with(log, |l| {
+            if l.end == ConsumerEnd::Running {
+                l.end = ConsumerEnd::Abandoned;
+                l.drop_count_at_end = dc;
+                l.trace.push(format!("consumer abandons the track after {} receive(s)", l.received.len()));
+            }
+        });
+    };
+    match mode {
+        Consumer::Drain => {
+            recv_loop(&track, &log, &tbl, cap, &pushes, None);
+        }
+        Consumer::AbandonAfter(k) => {
+            if !recv_loop(&track, &log, &tbl, cap, &pushes, Some(k)) {
+                abandon(&log);
+            }
+        }
+        Consumer::StopThenAbandon(k) => {
+            let ended = recv_loop(&track, &log, &tbl, cap, &pushes, Some(k));
+            do_stop(&track, &log, "consumer");
+            if !ended {
+                abandon(&log);
+            }
+        }
+        Consumer::StallThenDrain(k) => {
+            if !recv_loop(&track, &log, &tbl, cap, &pushes, Some(k)) {
+                // a wait the scheduler sees: every turn of the loop hands the processor over
+                while with(&log, |l| l.producers_done < np) {
+                    with(&log, |l| l.stalled += 1);
+                    shuttle::thread::yield_now();
+                }
+                with(&log, |l| l.trace.push(format!("consumer resumes after {} receive(s); every producer is done", l.received.len())));
+                recv_loop(&track, &log, &tbl, cap, &pushes, None);
+            }
+        }
+    }
+    drop_holder(track, &log, "consumer", "track");
 }
 
 // ---------------------------------------------------------------------------------------------
@@ -402,14 +597,22 @@ pub fn body(w: &Workload) {
     IN_EXEC.with(|c| c.set(true));
     SP_COUNT.with(|c| c.set(0));
     LAST_NONTRIVIAL.with(|c| c.set(false));
+    // blocks parked by an execution that ended in a violation
+    payload::flush_quarantine();
     let np = w.producers.len();
     let handles = np + 1;
-    let log: SharedLog = Arc::new(Mutex::new(Log::new(w, handles)));
+    let drain = w.consumer == Consumer::Drain;
+    let pushes: Vec<u32> = w.producers.iter().map(|ops| ops.iter().map(|o| o.pushes()).sum()).collect();
+    let wants_track = |ops: &[Op]| ops.contains(&Op::Stop);
+    // source handles + the creating thread's and the consumer's Arc of the track + one Arc per
+    // thread that calls stop()
+    let holders = handles + 2 + w.producers.iter().filter(|o| wants_track(o)).count() + usize::from(!w.controller.is_empty());
+    let table = Table::new(&pushes);
+    let log: SharedLog = Arc::new(Mutex::new(Log::new(w, handles, holders, table.clone())));
     *CUR.lock().unwrap() = Some(log.clone());
     crate::sched::PROGRESS.fetch_add(1, std::sync::atomic::Ordering::Relaxed);
 
     let (src, track, _feedback_rx) = sample_track(MediaKind::Audio, w.capacity);
-    let pushes: Vec<u32> = w.producers.iter().map(|ops| ops.iter().map(|o| o.pushes()).sum()).collect();
     let mut joins = Vec::new();
     let original: Handle = match w.mode {
         SourceMode::SharedArc => Handle::Shared(Arc::new(src)),
@@ -420,8 +623,9 @@ pub fn body(w: &Workload) {
             Handle::Shared(a) => Handle::Shared(a.clone()),
             Handle::Owned(s) => Handle::Owned(s.clone()),
         };
-        let (ops, track, log, cap) = (ops.clone(), track.clone(), log.clone(), w.capacity);
-        joins.push(shuttle::thread::spawn(move || producer(p, ops, h, track, log, cap)));
+        let t = if wants_track(ops) { Some(track.clone()) } else { None };
+        let (ops, log, cap) = (ops.clone(), log.clone(), w.capacity);
+        joins.push(shuttle::thread::spawn(move || producer(p, ops, h, t, log, cap)));
     }
     if !w.controller.is_empty() {
         let (ops, track, log) = (w.controller.clone(), track.clone(), log.clone());
@@ -431,15 +635,16 @@ pub fn body(w: &Workload) {
                     do_stop(&track, &log, "bystander");
                 }
             }
+            drop_holder(track, &log, "bystander", "track");
         }));
     }
     let cons = {
-        let (track, log, cap) = (track.clone(), log.clone(), w.recv_cap());
-        shuttle::thread::spawn(move || consumer(track, log, cap, pushes))
+        let (track, log, cap, mode) = (track.clone(), log.clone(), w.recv_cap(), w.consumer);
+        shuttle::thread::spawn(move || consumer(track, log, cap, pushes, mode, np))
     };
-    // the creating thread lets go of its own handle at a point the scheduler chooses
+    // the creating thread lets go of its own source handle at a point the scheduler chooses
     let last = with(&log, |l| l.handles_alive == 1);
-    drop(original);
+    drop_holder(original, &log, "main", "source");
     with(&log, |l| {
         l.handles_alive -= 1;
         if last {
@@ -447,23 +652,38 @@ pub fn body(w: &Workload) {
             l.trace.push("closed by main".into());
         }
     });
+    // ... and, unless the consumer simply drains, of its track handle too: whichever thread is
+    // last then tears the ring down with whatever is still queued
+    let mut track = Some(track);
+    if !drain {
+        drop_holder(track.take().unwrap(), &log, "main", "track");
+    }
     for j in joins {
         j.join().expect("producer thread panicked");
     }
     cons.join().expect("consumer thread panicked");
 
-    let verdict = with(&log, |l| judge(w, l));
-    with(&log, |l| account(w, l));
+    let mut verdict = with(&log, |l| judge(w, l));
+    if let Some(track) = track {
+        if verdict.is_err() {
+            // a ring whose indices were corrupted can have head > tail, and SpscRing::drop then
+            // loops (practically) for ever re-dropping slots: do not run that destructor on a queue
+            // already known to be broken, the finding is reported through the oracle instead
+            std::mem::forget(track);
+        } else {
+            with(&log, |l| l.trace.push("judged ok; dropping track".into()));
+            drop_holder(track, &log, "main", "track");
+        }
+    }
+    if verdict.is_ok() {
+        // every handle is gone and every thread has ended: the books on the payloads must balance
+        verdict = judge_release(w, &log, &table);
+    }
+    with(&log, |l| account(w, l, &table));
     if let Err(v) = verdict {
-        // a ring whose indices were corrupted can have head > tail, and SpscRing::drop then
-        // loops (practically) for ever re-dropping slots: do not run that destructor on a queue
-        // already known to be broken, the finding is reported through the oracle instead
-        std::mem::forget(track);
         IN_EXEC.with(|c| c.set(false));
         panic!("{ORACLE_TAG}{}|{}|{}", v.oracle, v.kind, v.detail);
     }
-    with(&log, |l| l.trace.push("judged ok; dropping track".into()));
-    drop(track);
     crate::sched::PROGRESS.fetch_add(1, std::sync::atomic::Ordering::Relaxed);
     IN_EXEC.with(|c| c.set(false));
 }
@@ -502,9 +722,12 @@ fn judge(w: &Workload, l: &Log) -> Result<(), Violation> {
         }
         last[p] = Some(i);
     }
-    // C20.eos: every source handle is gone by now, so recv() must have ended with EndOfStream
+    // C20.eos: every source handle is gone by now, so a consumer that kept calling recv() must
+    // have been told EndOfStream; one that abandoned the track on purpose owes nothing
+    let may_abandon = matches!(w.consumer, Consumer::AbandonAfter(_) | Consumer::StopThenAbandon(_));
     match &l.end {
         ConsumerEnd::Eos => {}
+        ConsumerEnd::Abandoned if may_abandon => {}
         ConsumerEnd::CapExceeded => {
             return Err(Violation { oracle: "C20.once", kind: "more_received_than_pushed", detail: format!("{} receives for {} pushes", l.received.len(), w.total_pushes()) })
         }
@@ -518,7 +741,7 @@ fn judge(w: &Workload, l: &Log) -> Result<(), Violation> {
     // API defines is one sample per send() that met a full ring.
     let missing = l.accepted_total() - l.received.len(); // received ⊆ accepted and duplicate-free at this point
     let allowance = l.overflow_allowance();
-    if !l.stop_called && missing as u32 > allowance {
+    if !l.stop_called && l.end == ConsumerEnd::Eos && missing as u32 > allowance {
         let lost: Vec<String> = l.accepted.iter().enumerate().flat_map(|(p, a)| a.iter().filter(|i| !seen.contains(&(((p as u32) << 16) | **i))).map(move |i| format!("p{p}#{i}")).collect::<Vec<_>>()).collect();
         // "after the source closes the consumer drains what remains and then observes end-of-stream"
         let (oracle, kind) = ("C20.eos", "undrained_at_eos");
@@ -530,15 +753,62 @@ fn judge(w: &Workload, l: &Log) -> Result<(), Violation> {
     Ok(())
 }
 
-fn account(_w: &Workload, l: &Log) {
-    let overflow_lost = if l.stop_called { 0 } else { (l.accepted_total() - l.received.len().min(l.accepted_total())) as u32 };
+/// C20.release: the execution has ended and every handle of the queue is gone, so every payload
+/// that was created has been released exactly once - by the consumer after recv() handed it over,
+/// by the producer's own push call when that refused it, by the queue when it dropped its oldest
+/// (or discarded the new sample) on overflow, or by SpscRing::drop when the last handle went.
+fn judge_release(w: &Workload, log: &SharedLog, tbl: &Arc<Table>) -> Result<(), Violation> {
+    let (holders, stale, teardown) = with(log, |l| (l.holders_total - l.holders_dropped, l.released_while_queued.clone(), l.teardown.clone()));
+    assert_eq!(holders, 0, "harness: {holders} handle(s) of the ring still alive when the release books are closed");
+    let parked = payload::flush_quarantine();
+    let name = |p: usize, i: usize| format!("p{p}#{i}");
+    let td = teardown.map(|t| format!("last handle ({}) dropped by {} with {} of {} slot(s) occupied, ring head {}", t.handle, t.by, t.fill, w.capacity, t.head)).unwrap_or_else(|| "no teardown recorded".into());
+    if let Some(ts) = stale.first() {
+        return Err(Violation { oracle: "C20.release", kind: "released_while_queued", detail: format!("recv() delivered p{}#{} after its payload had been released: the consumer holds freed memory", ts >> 16, ts & 0xffff) });
+    }
+    tbl.with(|t| {
+        let mut twice = vec![];
+        let mut never = vec![];
+        for (p, c) in t.created.iter().enumerate() {
+            for (i, created) in c.iter().enumerate() {
+                if !*created {
+                    continue;
+                }
+                // drops of stale copies after the first release do not reach the owner's Drop any
+                // more; they show as a non-zero count word in the parked block
+                let again: usize = parked.iter().filter(|(a, word)| *word != 0 && t.blocks.iter().any(|b| b.0 == *a && b.1 as usize == p && b.2 as usize == i)).map(|(_, word)| 0usize.wrapping_sub(*word)).sum();
+                let n = t.released[p][i] as usize + again;
+                if n >= 2 {
+                    let how: Vec<&str> = t.order.iter().filter(|o| o.0 as usize == p && o.1 as usize == i).map(|o| payload::PATHS[o.2 as usize]).collect();
+                    twice.push(format!("{} released {n} times ({how:?}{})", name(p, i), if again > 0 { format!(" + {again} drop(s) of a stale copy after the release") } else { String::new() }));
+                } else if n == 0 {
+                    never.push(name(p, i));
+                }
+            }
+        }
+        if !twice.is_empty() {
+            return Err(Violation { oracle: "C20.release", kind: "released_twice", detail: format!("double free: {}; {td}", twice.join(", ")) });
+        }
+        if !never.is_empty() {
+            let created: usize = t.created.iter().map(|c| c.iter().filter(|c| **c).count()).sum();
+            return Err(Violation { oracle: "C20.release", kind: "leaked", detail: format!("{} of {created} payload(s) never released after every handle was dropped: {never:?}; {td}", never.len()) });
+        }
+        Ok(())
+    })
+}
+
+fn account(w: &Workload, l: &Log, tbl: &Table) {
+    let overflow_lost = if l.stop_called || l.end != ConsumerEnd::Eos { 0 } else { (l.accepted_total() - l.received.len().min(l.accepted_total())) as u32 };
+    let queued_at_teardown = l.teardown.as_ref().map(|t| t.fill).unwrap_or(0);
     let nontrivial = l.received_while_producer_alive > 0
         || l.parked_before_close > 0
         || overflow_lost > 0
         || l.stop_during_send > 0
         || l.received_after_close > 0
-        || l.would_block > 0;
+        || l.would_block > 0
+        || queued_at_teardown > 0;
     LAST_NONTRIVIAL.with(|c| c.set(nontrivial));
+    let (created, by_path) = tbl.with(|t| (t.created.iter().map(|c| c.iter().filter(|c| **c).count()).sum::<usize>(), t.by_path));
     STATS.with(|s| {
         let mut s = s.borrow_mut();
         s.executions_completed += 1;
@@ -548,6 +818,10 @@ fn account(_w: &Workload, l: &Log) {
         s.samples_accepted += l.accepted_total() as u64;
         s.samples_received += l.received.len() as u64;
         s.samples_lost_to_overflow += overflow_lost as u64;
+        s.payloads_created += created as u64;
+        for (k, n) in by_path.iter().enumerate() {
+            s.released_by[k] += *n as u64;
+        }
         s.hit("overflow_drop_oldest_or_drop_new", overflow_lost);
         s.hit("send_met_possibly_full_ring", l.overflow_allowance());
         s.hit("try_send_would_block", l.would_block);
@@ -558,5 +832,35 @@ fn account(_w: &Workload, l: &Log) {
         s.hit("recv_parked", l.parked);
         s.hit("sample_received_while_producer_alive", l.received_while_producer_alive);
         s.hit("stop_called", l.stop_called as u32);
+        s.hit("consumer_abandoned_track", (l.end == ConsumerEnd::Abandoned) as u32);
+        s.hit("consumer_abandoned_without_recv", (l.end == ConsumerEnd::Abandoned && l.received.is_empty()) as u32);
+        s.hit("consumer_stalled_then_drained", l.stalled);
+        s.hit("queue_released_overflow_victim", by_path[payload::Path::QueueOverflowOldest as usize] + by_path[payload::Path::QueueOverflowNewest as usize]);
+        s.hit("payload_released_outside_known_paths", by_path[payload::Path::Elsewhere as usize]);
+        if let Some(t) = &l.teardown {
+            let cap = w.capacity;
+            let class = if t.fill == 0 { 0 } else if t.fill < cap { 1 } else { 2 };
+            s.teardown[class] += 1;
+            s.hit(["teardown_empty", "teardown_partly_filled", "teardown_with_full_ring"][class], 1);
+            if class == 2 {
+                *s.teardown_full_by_capacity.entry(cap).or_insert(0) += 1;
+                s.hit(
+                    match cap {
+                        1 => "teardown_with_full_ring_capacity_1",
+                        2 => "teardown_with_full_ring_capacity_2",
+                        4 => "teardown_with_full_ring_capacity_4",
+                        _ => "teardown_with_full_ring_capacity_other",
+                    },
+                    1,
+                );
+            }
+            // occupied slots run past the end of the buffer and continue at slot 0
+            s.hit("teardown_with_wrapped_ring", (t.fill > 0 && t.head % cap + t.fill > cap) as u32);
+            s.hit("teardown_with_head_off_slot_0", (t.fill > 0 && t.head % cap != 0) as u32);
+            s.hit(if t.handle == "source" { "last_handle_was_a_source" } else { "last_handle_was_the_track" }, 1);
+            s.hit("last_handle_dropped_by_consumer", (t.by == "consumer") as u32);
+            s.hit("teardown_after_stop", (l.stop_called && t.fill > 0) as u32);
+            s.hit("teardown_nonempty_several_producers", (t.fill > 0 && l.accepted.iter().filter(|a| !a.is_empty()).count() >= 2) as u32);
+        }
     });
 }
